@@ -1,4 +1,5 @@
 import DclabModel.Lemmas.Cli
+import DclabModel.Lemmas.CliTasks
 /-!
 # C10 — Command-line tasks never leave a partial file at the output path
 
@@ -140,6 +141,309 @@ theorem early_rename_rejected :
     Conforms rolesEx fsEx [.create 2, .write 2 1, .close 2, .rename 2 1, .openAppend 1,
       .write 1 2, .close 1] = false := by
   decide
+
+/-! ### the window between rename and close -/
+
+/-- **A published file is never open.**  In a conforming trace no crash point sees a writing handle
+on an output path: the rename happens only after the temporary was closed, and the output is never
+opened for writing afterwards. -/
+theorem output_never_open (r : Roles) (fs0 : FS) (tr : List Op) (hc : Conforms r fs0 tr = true)
+    (o : Path) (ho : o ∈ r.outs) (hq : quiet (get fs0 o) = true) (k : Nat) :
+    quiet (get (crash fs0 tr k) o) = true := by
+  rcases crash_safe r fs0 tr hc o ho hq k with h | h | ⟨_, f, hf, hcl⟩
+  · rw [h]; exact hq
+  · rw [h]; rfl
+  · rw [hf]; simp [quiet, hcl]
+
+/-- **After the rename nothing can go wrong.**  Every crash point behind `rename t o` (a kill
+immediately after the rename, or at any later operation of the task) sees the complete, closed file
+at `o` — the same file the successful run leaves there. -/
+theorem complete_after_rename (r : Roles) (fs0 : FS) (pre post : List Op) (t o : Path)
+    (hc : Conforms r fs0 (pre ++ .rename t o :: post) = true) (k : Nat) (hk : pre.length < k) :
+    Complete fs0 (pre ++ .rename t o :: post)
+      (get (crash fs0 (pre ++ .rename t o :: post) k) o) o := by
+  obtain ⟨hfin, f, hf, hcl⟩ := output_is_finished_temp r fs0 pre post t o hc
+  simp only [Conforms, Bool.and_eq_true] at hc
+  obtain ⟨dead', h'⟩ := conformsFrom_append r pre fs0 [] _ hc.2
+  simp only [conformsFrom, Bool.and_eq_true] at h'
+  have hs : get (step (run fs0 pre) (.rename t o)) o = some f := by simp [step, hf, get_upd]
+  have hfz := frozen r o post _ _ h'.2 (Or.inr (by simp [deadAfter])) (by rw [hs]; simp [quiet, hcl])
+  have hk' : k = pre.length + 1 + (k - pre.length - 1) := by omega
+  have hcr : get (crash fs0 (pre ++ .rename t o :: post) k) o = some f := by
+    unfold crash
+    rw [hk', List.take_append, List.take_of_length_le (by omega)]
+    have : pre.length + 1 + (k - pre.length - 1) - pre.length = (k - pre.length - 1) + 1 := by omega
+    rw [this, List.take_succ_cons, run_append, run_cons, hfz, hs]
+  rw [hcr]
+  exact ⟨by rw [hfin, hf], f, rfl, hcl⟩
+
+/-- a rename while the writing handle is still open (the file would be published before HDF5 has
+flushed and closed it) is rejected, whatever follows -/
+theorem open_rename_rejected (r : Roles) (fs0 : FS) (pre post : List Op) (t o : Path) (f : File)
+    (hf : get (run fs0 pre) t = some f) (ho : f.openW = true) :
+    Conforms r fs0 (pre ++ .rename t o :: post) = false := by
+  cases h : Conforms r fs0 (pre ++ .rename t o :: post) with
+  | false => rfl
+  | true =>
+    obtain ⟨_, g, hg, hcl⟩ := output_is_finished_temp r fs0 pre post t o h
+    rw [hf] at hg
+    cases hg
+    rw [ho] at hcl
+    cases hcl
+
+/-- **A refused invocation touches nothing.**  When the output or the temporary path coincides
+with an input (roles that are not `wf`; F29, F64) the task must stop before any mutation; such a
+trace leaves every path — whatever its role — exactly as it was, at every crash point and after
+the clean-up. -/
+theorem refused_untouched (fs0 : FS) (tr : List Op) (h : nonMutating tr = true) (p : Path)
+    (hq : quiet (get fs0 p) = true) (k : Nat) :
+    get (crash fs0 tr k) p = get fs0 p ∧ get (fail fs0 tr k) p = get fs0 p := by
+  have hall : ∀ op ∈ tr.take k, mutated op = [] := by
+    intro op hop
+    have := List.all_eq_true.mp h op (List.mem_of_mem_take hop)
+    simpa using this
+  have hc : get (crash fs0 tr k) p = get fs0 p := run_nonMutating p _ fs0 hall hq
+  refine ⟨hc, ?_⟩
+  unfold fail
+  rw [get_closeAll, hc]
+  cases hv : get fs0 p with
+  | none => rfl
+  | some f => rw [hv] at hq; simp [quiet] at hq; simp [quiet_close_eq hq]
+
+/-- the F64 shape: the temporary path *is* the input — no well-formed role assignment exists, and
+the old behaviour (unlink the "stale temporary") destroys the input -/
+theorem temp_is_input_witness :
+    (roles1 [0] 1 0).wf = false ∧
+    get (crash [(0, ⟨[100], false⟩)] [.unlink 0, .openRead 0] 1) 0 = none ∧
+    nonMutating [.unlink 0, .openRead 0] = false ∧ nonMutating ([] : List Op) = true := by
+  decide
+
+/-! ### task templates: the traces the tasks are expected to produce, for all parameter values -/
+
+private theorem all_local {r : Roles} {pre : List Op} (h : pre.all (localOk r) = true) :
+    ∀ op ∈ pre, localOk r op = true := by
+  simpa [List.all_eq_true] using h
+
+private theorem keeps_writes (t : Path) (n : Nat) : ∀ op ∈ writes t n, keeps t op = true :=
+  fun op h => by rw [mem_writes h]; rfl
+
+/-- **condense / repack template.**  For every number of writes, stale-file situation and initial
+file system the template satisfies the protocol. -/
+theorem copy_template_conforms (i o t : Path) (so st : Bool) (n : Nat) (fs0 : FS)
+    (hw : (roles1 [i] o t).wf = true) :
+    Conforms (roles1 [i] o t) fs0 (copyTrace i o t so st n) = true := by
+  unfold copyTrace
+  apply single_output_conforms _ hw t o (by simp [roles1]) (by simp [roles1])
+  · apply all_local
+    cases so <;> cases st <;>
+      simp [setup1, setupOps, session, writes, localOk, roles1, List.all_replicate]
+  · exact closedAt_after_session fs0 t _ [.close i] (.create t) (Or.inl rfl) _ (keeps_writes t n)
+      (by simp [mutated])
+
+/-- **compress template** -/
+theorem compress_template_conforms (i o t : Path) (so st : Bool) (n1 n2 : Nat) (fs0 : FS)
+    (hw : (roles1 [i] o t).wf = true) :
+    Conforms (roles1 [i] o t) fs0 (compressTrace i o t so st n1 n2) = true := by
+  unfold compressTrace
+  apply single_output_conforms _ hw t o (by simp [roles1]) (by simp [roles1])
+  · apply all_local
+    cases so <;> cases st <;>
+      simp [setup1, setupOps, session, writes, localOk, roles1, List.all_replicate]
+  · have := closedAt_after_session fs0 t
+      (setup1 so st o t ++ [.openRead i] ++ session (.create t) t (writes t n1) ++ [.close i]) []
+      (.openAppend t) (Or.inr rfl) _ (keeps_writes t n2) (by simp)
+    simpa using this
+
+/-- **join template**: any list of inputs, any sequence of probed files, any number of appended
+inputs and of writes -/
+theorem join_template_conforms (ins probes : List Path) (first o t : Path) (so st : Bool)
+    (n0 n1 : Nat) (segs : List Seg) (fs0 : FS) (hw : (roles1 ins o t).wf = true) :
+    Conforms (roles1 ins o t) fs0 (joinTrace probes first o t so st n0 n1 segs) = true := by
+  unfold joinTrace
+  apply single_output_conforms _ hw t o (by simp [roles1]) (by simp [roles1])
+  · apply all_local
+    cases so <;> cases st <;>
+      simp [setup1, setupOps, session, segOps, writes, localOk, roles1, List.all_replicate,
+        List.all_flatMap]
+  · have := closedAt_after_session fs0 t
+      (setup1 so st o t ++ probes.flatMap (fun p => [.openRead p, .close p]) ++ [.openRead first] ++
+        session (.openAppend t) t (writes t n0) ++ [.close first]) []
+      (.openAppend t) (Or.inr rfl) (writes t n1 ++ segs.flatMap (segOps t)) ?_ (by simp)
+    · simpa using this
+    · intro op h
+      rw [List.mem_append] at h
+      rcases h with h | h
+      · exact keeps_writes t n1 op h
+      · obtain ⟨s, _, hs⟩ := List.mem_flatMap.mp h
+        simp only [segOps, List.mem_cons, List.mem_append] at hs
+        rcases hs with (e | h') | e | h'
+        · subst e; rfl
+        · exact keeps_writes t _ op h'
+        · subst e; rfl
+        · exact keeps_writes t _ op h'
+
+/-- **split template**, for every number of parts (induction over the parts) and of writes per part:
+all exports, then all log sessions, then all renames -/
+theorem split_template_conforms (i : Path) (aux : List Path) (parts : List Part) (fs0 : FS)
+    (hw : (rolesParts [i] parts).wf = true) (hd : parts.Pairwise Part.apart) :
+    Conforms (rolesParts [i] parts) fs0 (splitTrace i aux parts) = true := by
+  have hmem : ∀ pt ∈ parts, (rolesParts [i] parts).temps.contains pt.t = true ∧
+      (rolesParts [i] parts).outs.contains pt.o = true := by
+    intro pt hpt
+    simp only [rolesParts, List.contains_eq_mem, List.mem_map, decide_eq_true_eq]
+    exact ⟨⟨pt, hpt, rfl⟩, ⟨pt, hpt, rfl⟩⟩
+  unfold splitTrace
+  simp only [Conforms, hw, Bool.true_and]
+  rw [conformsFrom_local_append _ hw []]
+  · apply conforms_renames _ hw _ _ _ hd
+    intro pt hpt
+    refine ⟨?_, (hmem pt hpt).1, (hmem pt hpt).2, rfl, rfl⟩
+    rw [run_append]
+    exact closedAt_blocks logBlock isSession_logBlock parts _
+      (hd.imp (fun h => h.1)) pt hpt
+  · intro op hop
+    refine ⟨?_, by simp⟩
+    simp only [List.mem_append, List.mem_cons, List.mem_map, List.mem_flatMap, List.mem_reverse,
+      List.not_mem_nil, or_false] at hop
+    have hblock : ∀ pt ∈ parts, ∀ n, op ∈ session (.openAppend pt.t) pt.t (writes pt.t n) →
+        localOk (rolesParts [i] parts) op = true := by
+      intro pt hpt n h
+      simp only [session, List.mem_cons, List.mem_append, List.not_mem_nil, or_false] at h
+      rcases h with (e | h) | e
+      · subst e; exact (hmem pt hpt).1
+      · rw [mem_writes h]; exact (hmem pt hpt).1
+      · subst e; rfl
+    rcases hop with (((e | ⟨p, _, e⟩) | ⟨pt, hpt, h⟩) | (⟨p, _, e⟩ | e)) | ⟨pt, hpt, h⟩
+    · subst e; rfl
+    · subst e; rfl
+    · exact hblock pt hpt _ h
+    · subst e; rfl
+    · subst e; rfl
+    · exact hblock pt hpt _ h
+
+/-- **tdms2rtdc template**, for every number of converted files: stale outputs and temporaries are
+unlinked, then file after file is exported, gets its logs and is renamed -/
+theorem tdms_template_conforms (ins staleOuts staleTemps : List Path) (parts : List Part) (fs0 : FS)
+    (hw : (rolesParts ins parts).wf = true) (hd : parts.Pairwise Part.apart)
+    (hso : ∀ p ∈ staleOuts, p ∈ parts.map (·.o)) (hst : ∀ p ∈ staleTemps, p ∈ parts.map (·.t)) :
+    Conforms (rolesParts ins parts) fs0 (tdmsTrace staleOuts staleTemps parts) = true := by
+  unfold tdmsTrace
+  simp only [Conforms, hw, Bool.true_and]
+  rw [conformsFrom_local_append _ hw []]
+  · apply conforms_files _ hw _ _ _ hd
+    intro pt hpt
+    simp only [rolesParts, List.contains_eq_mem, List.mem_map, decide_eq_true_eq]
+    exact ⟨⟨pt, hpt, rfl⟩, ⟨pt, hpt, rfl⟩, rfl, rfl⟩
+  · intro op hop
+    refine ⟨?_, by simp⟩
+    simp only [setupOps, List.mem_append, List.mem_map] at hop
+    rcases hop with ⟨p, hp, e⟩ | ⟨p, hp, e⟩ <;> subst e
+    · have := hso p hp
+      simp only [localOk, rolesParts, Bool.or_eq_true, List.contains_eq_mem, decide_eq_true_eq]
+      exact Or.inr this
+    · have := hst p hp
+      simp only [localOk, rolesParts, Bool.or_eq_true, List.contains_eq_mem, decide_eq_true_eq]
+      exact Or.inl this
+
+/-- the templates with one output never look at a leftover temporary: either `setup_task_paths`
+unlinks it (`st`) or there is none -/
+theorem single_templates_fresh (ins : List Path) (i o t first : Path) (so st : Bool)
+    (n n1 n2 : Nat) (probes : List Path) (segs : List Seg) (fs0 : FS)
+    (h : st = true ∨ get fs0 t = none) :
+    freshFrom [t] (absentTemps (roles1 ins o t) fs0) (copyTrace i o t so st n) = true ∧
+    freshFrom [t] (absentTemps (roles1 ins o t) fs0) (compressTrace i o t so st n1 n2) = true ∧
+    freshFrom [t] (absentTemps (roles1 ins o t) fs0)
+      (joinTrace probes first o t so st n n1 segs) = true := by
+  have known : ∀ rest : List Op,
+      freshFrom [t] (absentTemps (roles1 ins o t) fs0) (setup1 so st o t) = true ∧
+      (absentTemps (roles1 ins o t) fs0 ++ (setup1 so st o t).flatMap resets).contains t = true := by
+    intro _
+    constructor
+    · apply freshFrom_of_known
+      intro op hop p hp _
+      cases so <;> cases st <;> simp [setup1, setupOps] at hop <;>
+        (try (rcases hop with e | e)) <;> subst_vars <;> simp [reads] at hp
+    · rcases h with h | h
+      · subst h
+        cases so <;> simp [setup1, setupOps, resets]
+      · simp [absentTemps, roles1, h]
+  have fresh : ∀ rest : List Op, freshFrom [t] (absentTemps (roles1 ins o t) fs0)
+      (setup1 so st o t ++ rest) = true := by
+    intro rest
+    rw [freshFrom_append, (known rest).1, Bool.true_and]
+    apply freshFrom_of_known
+    intro op _ p _ hp
+    have : p = t := by simpa using hp
+    subst this
+    exact (known rest).2
+  refine ⟨?_, ?_, ?_⟩
+  · have := fresh ([.openRead i] ++ session (.create t) t (writes t n) ++ [.close i] ++ [.rename t o])
+    simpa [copyTrace, List.append_assoc] using this
+  · have := fresh ([.openRead i] ++ session (.create t) t (writes t n1) ++ [.close i] ++
+      session (.openAppend t) t (writes t n2) ++ [.rename t o])
+    simpa [compressTrace, List.append_assoc] using this
+  · have := fresh (probes.flatMap (fun p => [.openRead p, .close p]) ++ [.openRead first] ++
+      session (.openAppend t) t (writes t n) ++ [.close first] ++
+      session (.openAppend t) t (writes t n1 ++ segs.flatMap (segOps t)) ++ [.rename t o])
+    simpa [joinTrace, List.append_assoc] using this
+
+/-- split does not remove leftovers (the export refuses an existing temporary): it is fresh when no
+temporary exists -/
+theorem split_template_fresh (i : Path) (aux : List Path) (parts : List Part) (fs0 : FS)
+    (h : ∀ pt ∈ parts, get fs0 pt.t = none) :
+    freshFrom (rolesParts [i] parts).temps (absentTemps (rolesParts [i] parts) fs0)
+      (splitTrace i aux parts) = true := by
+  apply freshFrom_of_known
+  intro op _ p _ hp
+  simp only [rolesParts, List.contains_eq_mem, List.mem_map, decide_eq_true_eq] at hp
+  obtain ⟨pt, hpt, e⟩ := hp
+  subst e
+  simp only [absentTemps, rolesParts, List.contains_eq_mem, List.mem_filter, List.mem_map,
+    decide_eq_true_eq]
+  exact ⟨⟨pt, hpt, rfl⟩, by simp [h pt hpt]⟩
+
+/-- consequence for every instance: whatever the number of parts and writes, at every crash point
+every part of a split is absent, the previous file, or complete -/
+theorem split_template_crash_safe (i : Path) (aux : List Path) (parts : List Part) (fs0 : FS)
+    (hw : (rolesParts [i] parts).wf = true) (hd : parts.Pairwise Part.apart)
+    (pt : Part) (hpt : pt ∈ parts) (hq : quiet (get fs0 pt.o) = true) (k : Nat) :
+    let v := get (crash fs0 (splitTrace i aux parts) k) pt.o
+    v = get fs0 pt.o ∨ v = none ∨ Complete fs0 (splitTrace i aux parts) v pt.o :=
+  crash_safe _ fs0 _ (split_template_conforms i aux parts fs0 hw hd) pt.o
+    (List.mem_map.mpr ⟨pt, hpt, rfl⟩) hq k
+
+/-- **Instances inherit the verdict of their template.**  The protocol never looks at write ids, so
+a recorded trace that is an instance of a template (`instanceOf`, decided by the driver for every
+recorded trace of a successful run) conforms iff the template does — with the template theorems
+above: it conforms. -/
+theorem instance_conforms (r : Roles) (fs0 : FS) (tmpl tr : List Op)
+    (h : instanceOf tmpl tr = true) : Conforms r fs0 tr = Conforms r fs0 tmpl := by
+  have he : tmpl = eraseIds tr := by
+    unfold instanceOf at h
+    cases hd : firstDiff tmpl (eraseIds tr) 0 with
+    | none => exact firstDiff_none _ _ _ hd
+    | some k => simp [hd] at h
+  simp only [Conforms, he]
+  rw [conformsFrom_eraseIds r tr fs0 fs0 [] (fun _ => rfl)]
+
+/-- e.g. every trace that is an instance of the split template — whatever the number of parts and
+writes — is crash safe -/
+theorem split_instance_conforms (i : Path) (aux : List Path) (parts : List Part) (fs0 : FS)
+    (hw : (rolesParts [i] parts).wf = true) (hd : parts.Pairwise Part.apart) (tr : List Op)
+    (h : instanceOf (splitTrace i aux parts) tr = true) :
+    Conforms (rolesParts [i] parts) fs0 tr = true := by
+  rw [instance_conforms _ _ _ _ h]
+  exact split_template_conforms i aux parts fs0 hw hd
+
+/-- the templates are not vacuous: the recorded shape `trCompress` is an instance, and a trace that
+publishes early is not -/
+example : instanceOf (compressTrace 0 1 2 true false 2 1) trCompress = true := by decide
+example : instanceOf (splitTrace 0 [] [⟨3, 1, 1, 1⟩, ⟨4, 2, 2, 1⟩])
+    [.openRead 0, .openAppend 3, .write 3 1, .close 3, .openAppend 4, .write 4 2, .write 4 3,
+     .close 4, .close 0, .openAppend 3, .write 3 4, .close 3, .openAppend 4, .write 4 5, .close 4,
+     .rename 3 1, .rename 4 2] = true := by decide
+example : instanceOf (copyTrace 0 1 2 false false 1)
+    [.openRead 0, .create 2, .write 2 1, .rename 2 1, .close 1, .close 0] = false := by decide
 
 /-! ### two-run histories -/
 
